@@ -121,6 +121,8 @@ class SpecSys:
         self.parent = None
         self.reform = False
         self.npar = 0
+        self.baseline = None      # index of the system a reform (or the copy of a reform) has as baseline
+        self.lastpar = []         # the updates of the last parameter modifier
 
     def derive(self, how, parent):
         s = copy.deepcopy(self)
@@ -128,6 +130,8 @@ class SpecSys:
         if how == "R":
             s.reform = True
             s.npar = 0               # a reform's own modifiers start from its baseline's tree
+            s.baseline = parent
+            s.lastpar = []
         return s
 
     def read(self, name, d):
@@ -198,6 +202,7 @@ class SpecSys:
         for u in x:
             self.params.setdefault(u["name"], []).append((u["a"], u["b"], u["v"]))
         self.npar += 1
+        self.lastpar = [(u["name"], u["a"], u["b"], u["v"]) for u in x]
         return True
 
 
@@ -340,7 +345,7 @@ def oracle(case: Case, impl_out: str):
             if not valid:
                 systems[tgt] = before
                 systems[tgt].judged = False
-            elif op[2][0] == "par":
+            if op[2][0] == "par":                   # (a modifier that raises half-way has updated in place, too)
                 for j, s in enumerate(systems):     # reforms stacked on the target may share its tree
                     p = j
                     while systems[p].how == "R":
@@ -416,6 +421,20 @@ def oracle(case: Case, impl_out: str):
             same = lambda g: g == e or (e == "ERR" and g.startswith("ERR"))
             req = plan["requests"][i]
             if not same(g3):
+                if s.reform and s.npar >= 2 and s.baseline is not None:
+                    # would the value be explained by the earlier modifiers having been dropped?
+                    b = systems[s.baseline]
+
+                    def lost(n, d, b=b, s=s):
+                        val = b.read(n, d)
+                        for n2, a2, b2, v2 in s.lastpar:
+                            if n2 == n and a2 <= d and (b2 is None or d <= b2):
+                                val = v2
+                        return val
+                    alt = su.evaluate(s.vars, {n: (lambda d, n=n: lost(n, d)) for n in s.base_params}, spec["fdefs"], plan)
+                    if alt[i][0] is not None and (g3 == alt[i][0] or (alt[i][0] == "ERR" and g3.startswith("ERR"))):
+                        return ("derived-parameters:earlier-modifier-lost",
+                                f"system {k}: {req} gives {g3}: the value with only the last parameter modifier applied; the rules give {e}")
                 return ("derived-calculation" if k else "origin-calculation",
                         f"system {k}: {req} gives {g3} (max_spiral_loops=3), the rules give {e}")
             if not same(g1):
